@@ -23,15 +23,95 @@ import warnings
 
 import framework as fw
 
-KNOWN_CONTENT = ("", "OLD", "SENTINEL")
+# earlier data that is longer than any document written here (a save must replace it, not write over its head)
+LONG_OLD = u"OLD line\n" * 9000
+KNOWN_CONTENT = ("", "OLD", "SENTINEL", LONG_OLD)
 RDF_PARSE_FORMAT = {None: "xml", "xml": "xml", "pretty-xml": "xml", "turtle": "turtle", "ttl": "turtle",
                     "nt": "nt", "ntriples": "nt", "nt11": "nt", "n3": "n3", "json-ld": "json-ld"}
 INVALID_KINDS = ("notype", "emptytype", "dupid", "dupprop", "dupsec", "dupid_far", "dupid_prop")
 FAULTS = ("obj_author", "gen_author", "nul_author", "ctrl_value", "surrogate_value", "validation_crash")
 TARGETS = ("absent", "old", "missing_dir", "is_dir")
 NAMES = ("f.out", "f", "d.1/f", "x.y:f", "f.rdf.ttl")
+# further file-name shapes (strengthening round 2): extension in the directory part, leading / trailing
+# dot, upper-case extension, blank, non-ASCII (given as an escape so that the case files stay ASCII)
+NAMES2 = ("d.ttl/f", ".hidden", "f.", "f.XML", "f g.out", u"f\u00fc\u4e2d.out", "d.xml/f.json")
+# symbolic links at the target path: to a file holding earlier bytes / to a file that does not exist
+LINK_TARGETS = ("link_old", "link_dangling")
+# how the path is handed over: the text itself, a pathlib.Path, bytes
+PATH_KINDS = ("str", "pathlib", "bytes")
+# backend arguments that are not one of the registered names (all must be refused before anything is touched)
+ODD_BACKENDS = ("bogus", "odml", "", " JSON", "json ", "XML\n", "<none>", "<int>", "<bytes>")
+# 'error_all': every warning of every module is an error (python -W error), not only the library's own
+FILTERS = ("default", "error", "ignore", "error_all")
+
+# ---- payloads: what an attribute of the document can hold (strengthening round 2) -----------------------
+# texts that some encoder / container format on the way to the file may refuse or mangle
+TEXTS = {
+    "lone_hi": u"a\ud800b", "lone_lo": u"caf\udce9.dat", "pair_rev": u"\udc00\ud800", "lone_end": u"x\udbff",
+    "long_then_lone": u"\u00e9" * 70000 + u"\udc80", "long": u"x\u20ac" * 40000,
+    "astral": u"x\U0001F600y", "astral_edges": u"\U00010000\U0010ffff",
+    "nel": u"a\x85b", "ls_ps": u"a\u2028b\u2029c", "nul": u"a\x00b", "ctrl": u"a\x01b", "esc": u"\x1b[0m",
+    "vt_ff": u"a\x0bb\x0cc", "fffe": u"a\ufffeb", "ffff": u"\uffff", "bom": u"\ufeffa", "cr": u"a\rb\r\nc",
+    "tab_nl": u"a\tb\nc\n", "wide": u"Ren\u00e9 \u20ac \u4e2d", "latin1": u"caf\u00e9", "del": u"a\x7fb",
+    "c1": u"a\x9bb", "quote": u"a\"'<>&b\\", "cdata": u"]]>", "empty": u"", "ws": u"  ", "yamlish": u"- : # {a}",
+    "yaml_tag": u"!!python/object:os.system", "nonchar": u"\ufdd0", "pct": u"100%s %(x)d %", "bidi": u"\u202eabc",
+    "combining": u"e\u0301\u0300", "number_like": u"1e5", "bool_like": u"yes", "null_like": u"~",
+}
+# texts for which a written file must load back to a document of the same shape
+SAFE_TEXTS = ("wide", "latin1", "astral", "astral_edges", "long", "combining")
+
+
+class StrSub(str):
+    """A str subclass (yaml has no representer for it)."""
+
+
+def make_object(kind):
+    """Attribute objects; some of them json / yaml / lxml / rdflib cannot encode."""
+    import datetime
+    import decimal
+    return {
+        "obj": lambda: Obj(), "gen": lambda: (x for x in []), "bytes": lambda: b"caf\xe9",
+        "bytearray": lambda: bytearray(b"ab"), "int": lambda: 5, "bigint": lambda: 10 ** 400,
+        "nan": lambda: float("nan"), "inf": lambda: float("-inf"), "set": lambda: set([1]),
+        "frozenset": lambda: frozenset([1]), "dict": lambda: {"k": 1}, "dict_obj": lambda: {"k": Obj()},
+        "dict_intkey": lambda: {1: "a", "1": "b"}, "tuple": lambda: ("a", "b"), "list": lambda: ["a", Obj()],
+        "true": lambda: True, "date": lambda: datetime.date(2020, 1, 2),
+        "time": lambda: datetime.time(1, 2, 3), "decimal": lambda: decimal.Decimal("1.5"),
+        "complex": lambda: 1j, "strsub": lambda: StrSub("sub"), "type": lambda: Obj, "lambda": lambda: (lambda: 0),
+        "exc": lambda: ValueError("x"), "range": lambda: range(3), "ellipsis": lambda: Ellipsis,
+    }[kind]()
+
+
+OBJECTS = ("obj", "gen", "bytes", "bytearray", "int", "bigint", "nan", "inf", "set", "frozenset", "dict", "dict_obj",
+           "dict_intkey", "tuple", "list", "true", "date", "time", "decimal", "complex", "strsub", "type", "lambda",
+           "exc", "range", "ellipsis")
+# where a payload goes: (holder, attribute). '_x' = below the API (only when the public setter would
+# resolve / fetch something); 'values*' = the value list of the first Property
+POSITIONS = {
+    "author": ("doc", "author"), "version": ("doc", "version"), "doc_repository": ("doc", "repository"),
+    "date": ("doc", "date"),
+    "sec_name": ("sec", "name"), "sec_type": ("sec", "type"), "sec_definition": ("sec", "definition"),
+    "sec_reference": ("sec", "reference"), "sec_repository": ("sec", "repository"), "sec_link": ("sec", "_link"),
+    "sec_include": ("sec", "_include"),
+    "prop_name": ("prop", "name"), "value": ("prop", "values*"), "value_text": ("prop", "values*text"),
+    "value_raw": ("prop", "_values*"), "unit": ("prop", "unit"), "prop_definition": ("prop", "definition"),
+    "dependency": ("prop", "dependency"), "dependency_value": ("prop", "dependency_value"),
+    "prop_reference": ("prop", "reference"), "uncertainty": ("prop", "uncertainty"),
+    "value_origin": ("prop", "value_origin"),
+    "sub_name": ("last_sec", "name"), "last_value": ("last_prop", "values*"),
+}
+# positions whose content decides the names / the shape of the loaded document or triggers a fetch on load
+NO_LOADBACK_POS = ("value_raw", "doc_repository", "sec_repository", "sec_link", "sec_include", "date", "uncertainty")
+XML_OPTS = {"local_style": ("<absent>", True, False, "yes", 1, 0, None),
+            "custom_template": ("<absent>", "tuple", "tuple1", "str", "bytes", "pct", "empty", "wide")}
+RDF_FORMAT_OBJECTS = ("none", "int", "bytes", "list", "tuple", "true")
 RDF_FORMATS = (None, "xml", "turtle", "nt", "json-ld", "n3", "pretty-xml", "ttl", "ntriples", "nt11",
                "trig", "trix", "bogus", "")
+# formats rdflib knows but the library's table does not, other spellings of known ones (round 2)
+RDF_FORMATS2 = ("nquads", "longturtle", "hext", "Turtle", "XML", " nt", "nt ", "application/rdf+xml", "json_ld")
+
+
+STEP_STREAMS = ("history", "locale", "reuse")
 
 
 class Obj(object):
@@ -70,6 +150,36 @@ def build_doc(spec):
             sub = odml.Section(name="sub", type="st", parent=sec)
             odml.Property(name="q", values=["v"], parent=sub)
             secs.append(sub)
+    if spec.get("rich"):
+        # other features of the library in the same document: a resolved link, unnamed objects, a Property
+        # without values, tuple / datetime / time / extreme float values, violated cardinalities (warnings),
+        # non-ASCII names, a third nesting level
+        doc.date = datetime.date(1999, 12, 31)
+        tgt = odml.Section(name="target", type="lt", parent=doc)
+        odml.Property(name="lp", values=[1, 2], parent=tgt)
+        lnk = odml.Section(name="linked", type="lt", parent=doc)
+        try:
+            lnk.link = "/target"
+        except Exception:
+            pass
+        unnamed = odml.Section(type="ut", parent=doc)
+        odml.Property(values=["x"], parent=unnamed)
+        odml.Property(name="no_values", parent=unnamed)
+        odml.Property(name="tup", values=["(1;2;3)"], dtype="3-tuple", parent=unnamed)
+        odml.Property(name="dt", values=[datetime.datetime(2020, 1, 2, 3, 4, 5)], parent=unnamed)
+        odml.Property(name="tm", values=[datetime.time(3, 4, 5)], parent=unnamed)
+        odml.Property(name="fl", values=[float("inf"), float("nan"), 1e300, -0.0], parent=unnamed)
+        odml.Property(name=u"n\u00e4me \u4e2d", values=[u"\u00fc"], unit=u"\u00b5V", parent=unnamed)
+        deep = odml.Section(name="deep", type="dt", parent=odml.Section(name="mid", type="mt", parent=unnamed))
+        odml.Property(name="dp", values=[10 ** 30], parent=deep)
+        if spec["rich"] == "card":
+            card = odml.Property(name="card", values=[1], parent=unnamed)
+            card.val_cardinality = (2, None)
+            unnamed.prop_cardinality = (1, 2)
+            unnamed.sec_cardinality = (2, None)
+        # (the linking Section is not a place for injections: its Properties are copies that every
+        #  Document.finalize - RDFWriter calls it - replaces by new ones)
+        secs += [tgt, unnamed, deep]
     return doc, secs
 
 
@@ -82,22 +192,65 @@ def _ancestors(sec):
     return out
 
 
-def inject(doc, secs, case):
-    """Applies the 'invalid', 'warn' and 'fault' parts of the case. -> list of skipped injections."""
+def _remove_identical(lst, item):
+    for i, cur in enumerate(list(lst)):
+        if cur is item:
+            list.__delitem__(lst, i)
+            return
+
+
+def apply_payload(doc, secs, payload, undo):
+    """Puts a text / an object into one attribute of the document. Raises when the library refuses."""
+    import odml
+    kind, pos = payload["kind"], payload["pos"]
+    value = TEXTS[kind] if kind in TEXTS else make_object(kind)
+    holder_name, attr = POSITIONS[pos]
+    with_props = [sec for sec in secs if len(sec.properties)]
+    holder = {"doc": lambda: doc, "sec": lambda: secs[0], "prop": lambda: with_props[0].properties[0],
+              "last_sec": lambda: secs[-1], "last_prop": lambda: with_props[-1].properties[-1]}[holder_name]()
+    if attr.startswith("values*"):
+        old_dtype, old_values = holder.dtype, holder.values
+
+        def restore():
+            holder._dtype = old_dtype
+            holder.values = old_values
+        undo.append(restore)
+        if attr.endswith("text"):
+            holder.dtype = "text"
+        holder.values = [value]
+    elif attr == "_values*":
+        old = holder._values
+        undo.append(lambda: setattr(holder, "_values", old))
+        holder._values = [value]
+    else:
+        old = getattr(holder, attr)
+        private = attr if attr.startswith("_") else "_" + attr
+        # undo below the setter when there is such a slot (the setter may refuse the old value's shape)
+        undo.append(lambda: setattr(holder, private if hasattr(holder, private) else attr, old))
+        setattr(holder, attr, value)
+
+
+def inject(doc, secs, case, undo=None):
+    """Applies the 'invalid', 'warn', 'fault' and 'payload' parts of the case -> list of skipped injections.
+    `undo` collects closures that take the injections back (streams that keep using the document)."""
     import odml
     skipped = []
+    if undo is None:
+        undo = []
     inv = case.get("invalid")
     pick = secs[case.get("pick", 0) % len(secs)] if secs else None
     if inv and pick is None:
         skipped.append(inv)
-    elif inv == "notype":
-        pick.type = None
-    elif inv == "emptytype":
-        pick.type = ""
+    elif inv in ("notype", "emptytype"):
+        old_type = pick.type
+        undo.append(lambda: setattr(pick, "type", old_type))
+        pick.type = None if inv == "notype" else ""
     elif inv == "dupid":
         clone = pick.clone(keep_id=True)
         clone.name = "clone_of_" + pick.name
-        pick.parent.append(clone)
+        holder = pick.parent
+        holder.append(clone)
+        undo.append(lambda: holder.remove(clone))
     elif inv == "dupid_far":
         # the two objects of one id sit in different branches, at different depths
         clone = pick.clone(keep_id=True)
@@ -105,10 +258,13 @@ def inject(doc, secs, case):
         others = [s for s in secs if s is not pick and s is not pick.parent
                   and all(a is not pick for a in _ancestors(s))]
         if others:
-            others[case.get("pick", 0) % len(others)].append(clone)
+            holder = others[case.get("pick", 0) % len(others)]
+            holder.append(clone)
+            undo.append(lambda: holder.remove(clone))
         else:
             far = odml.Section(name="far", type="ft", parent=doc)
             odml.Section(name="farther", type="ft", parent=far).append(clone)
+            undo.append(lambda: doc.remove(far))
     elif inv == "dupid_prop":
         # only two Properties share an id, in cousin Sections
         if pick.properties:
@@ -116,6 +272,7 @@ def inject(doc, secs, case):
             pclone.name = "clone_of_" + pclone.name
             far = odml.Section(name="far", type="ft", parent=doc)
             odml.Section(name="farther", type="ft", parent=far).append(pclone)
+            undo.append(lambda: doc.remove(far))
         else:
             skipped.append(inv)
     elif inv == "dupprop":
@@ -123,33 +280,45 @@ def inject(doc, secs, case):
             extra = odml.Property(name=pick.properties[0].name, values=[3])
             list.append(pick._props, extra)
             extra._parent = pick
+            undo.append(lambda: _remove_identical(pick._props, extra))
         except Exception:                 # below-API injection not possible on this tree: skip the case
             skipped.append(inv)
     elif inv == "dupsec":
         try:
             extra = odml.Section(name=pick.name, type=pick.type)
-            list.append(pick.parent._sections, extra)
-            extra._parent = pick.parent
+            holder = pick.parent
+            list.append(holder._sections, extra)
+            extra._parent = holder
+            undo.append(lambda: _remove_identical(holder._sections, extra))
         except Exception:
             skipped.append(inv)
     if case.get("warn"):
-        odml.Section(name="untyped", parent=doc)          # default type "n.s." -> warning
+        untyped = odml.Section(name="untyped", parent=doc)          # default type "n.s." -> warning
+        undo.append(lambda: doc.remove(untyped))
     fault = case.get("fault")
     try:
-        if fault == "obj_author":
-            doc.author = Obj()
-        elif fault == "gen_author":
-            doc.author = (x for x in [])
-        elif fault == "nul_author":
-            doc.author = u"a\x00b"
-        elif fault == "ctrl_value":
-            secs[0].properties[0].values = [u"a\x01b"]
-        elif fault == "surrogate_value":
-            secs[0].properties[0].values = [u"a\ud800b"]
+        if fault in ("obj_author", "gen_author", "nul_author"):
+            old_author = doc.author
+            undo.append(lambda: setattr(doc, "_author", old_author))
+            doc.author = {"obj_author": Obj(), "gen_author": (x for x in []), "nul_author": u"a\x00b"}[fault]
+        elif fault in ("ctrl_value", "surrogate_value"):
+            prop = secs[0].properties[0]
+            old_values = prop.values
+            undo.append(lambda: setattr(prop, "values", old_values))
+            prop.values = [u"a\x01b" if fault == "ctrl_value" else u"a\ud800b"]
         elif fault == "validation_crash":
-            secs[0].properties[0]._name = None
+            prop = secs[0].properties[0]
+            old_name = prop._name
+            undo.append(lambda: setattr(prop, "_name", old_name))
+            prop._name = None
     except Exception:
         skipped.append(fault)
+    payload = case.get("payload")
+    if payload:
+        try:
+            apply_payload(doc, secs, payload, undo)
+        except Exception:                 # the library refuses this object in this attribute: plain case
+            skipped.append("payload")
     return skipped
 
 
@@ -168,9 +337,17 @@ def snapshot(root):
     files = {}
     for cur, dirs, names in os.walk(root):
         for dname in dirs:
+            if os.path.islink(os.path.join(cur, dname)):
+                files[os.path.relpath(os.path.join(cur, dname), root) + "@"] = "-> " + os.readlink(
+                    os.path.join(cur, dname))
+                continue
             files[os.path.relpath(os.path.join(cur, dname), root) + "/"] = None
         for name in names:
             path = os.path.join(cur, name)
+            if os.path.islink(path):
+                # a link is an entry of its own (where it points); what it points to is listed separately
+                files[os.path.relpath(path, root) + "@"] = "-> " + os.readlink(path)
+                continue
             with io.open(path, "rb") as fh:
                 raw = fh.read()
             text = raw.decode("utf-8", "replace")
@@ -190,6 +367,10 @@ def warning_filter(mode):
         warnings.simplefilter("always")
         if mode == "error":
             warnings.filterwarnings("error", category=UserWarning, module=r"odml(\.|$)")
+        elif mode == "error_all":
+            warnings.simplefilter("error")
+        elif mode == "ignore":
+            warnings.simplefilter("ignore")
         yield rec
 
 
@@ -249,7 +430,15 @@ class C07(fw.Check):
             "{no fault, each injected render fault} x {target absent, holding earlier bytes}; plus random "
             "draws over the full product with file names that take/omit an extension, missing directory / "
             "directory targets, warnings-only documents, warnings filter 'error', bad custom_template, and "
-            "histories of 2-4 saves into one directory. Non-trivial = the save raised, or wrote a file over "
+            "histories of 2-4 saves into one directory. Round 2: every payload kind (36 texts - lone surrogates, "
+            "astral, NEL/LS, NUL/controls, BOM, 70k characters ... - and 26 kinds of attribute object) x every mode "
+            "with the attribute (24 positions of Document/Section/Property) and the target state rotating; every "
+            "attribute x {lone surrogate, object, astral} x {JSON, YAML, XML, turtle}; documents with links, unnamed "
+            "objects, empty Properties, tuple/datetime/extreme float values and violated cardinalities x every mode; "
+            "XML style options, odd backend names, rdf_format objects and unknown spellings, further file-name "
+            "shapes, pathlib/bytes paths, symbolic links at the target, warnings filter 'ignore'; random draws over "
+            "the product; one document + one writer object reused for 2-4 saves with edits in between; the locale "
+            "stream with payload texts. Non-trivial = the save raised, or wrote a file over "
             "earlier bytes, or issued a warning; distinct = distinct canonical JSON of the case.")
 
     # -- generation ----------------------------------------------------------
@@ -278,6 +467,64 @@ class C07(fw.Check):
                 case["doc"]["secs"] = 1
             if case["fault"] in ("ctrl_value", "surrogate_value", "validation_crash"):
                 case["doc"]["secs"] = 1
+            if case.get("payload"):
+                case["doc"]["secs"] = 1
+        return case
+
+    def payload(self, rng, kind=None, pos=None):
+        kind = kind or rng.choice(sorted(TEXTS) + list(OBJECTS))
+        return {"kind": kind, "pos": pos or rng.choice(sorted(POSITIONS))}
+
+    def wide_one(self, rng, mode=None, **fixed):
+        """A draw over the dimensions added in strengthening round 2 on top of `one` (the draws of `one`
+        itself are left as they were so that earlier seeds keep producing the earlier cases)."""
+        case = self.one(rng, mode)
+        entry, backend = case["entry"], case["backend"].upper()
+        roll = rng.random
+        if roll() < 0.5:
+            case["payload"] = self.payload(rng)
+            case["fault"] = None
+        if roll() < 0.25:
+            case["doc"] = dict(case["doc"], rich=rng.choice(["plain", "card"]))
+        if roll() < 0.25:
+            case["name"] = rng.choice(NAMES2)
+        if roll() < 0.2:
+            case["target"] = rng.choice(LINK_TARGETS + ("old_long",))
+        if roll() < 0.15:
+            case["path_kind"] = rng.choice(["pathlib", "bytes"])
+        if roll() < 0.3:
+            case["filter"] = rng.choice(FILTERS)
+        if backend == "XML" and roll() < 0.5:
+            case["custom_template"] = None
+            opts = {}
+            for key in sorted(XML_OPTS):
+                val = rng.choice(XML_OPTS[key])
+                if val != "<absent>":
+                    opts[key] = val
+            case["opts"] = opts
+        elif backend != "RDF" and roll() < 0.2:
+            case["opts"] = rng.choice([{"rdf_format": "turtle"}, {"local_style": True}, {"indent": 2},
+                                       {"custom_template": "str"}])
+        if backend == "RDF":
+            r = roll()
+            if r < 0.15:
+                case["rdf_format"] = rng.choice(RDF_FORMATS2)
+            elif r < 0.3:
+                case["rdf_format"] = None
+                case["rdf_format_obj"] = rng.choice(RDF_FORMAT_OBJECTS)
+        if entry in ("fileio", "odmlwriter") and roll() < 0.08:
+            case["backend"] = rng.choice(ODD_BACKENDS)
+        case.update(fixed)
+        return self.settle(case)
+
+    @staticmethod
+    def settle(case):
+        """A payload needs a Section to go to and must not repair the injected invalidity."""
+        if case.get("payload"):
+            if case["doc"]["secs"] == 0:
+                case["doc"] = dict(case["doc"], secs=1)
+            if case.get("invalid") and case["payload"]["pos"] in ("sec_name", "sec_type", "prop_name", "sub_name"):
+                case["payload"] = dict(case["payload"], pos="sec_definition")
         return case
 
     def generate(self, tier, rng):
@@ -329,6 +576,133 @@ class C07(fw.Check):
             for st in steps:
                 st["backend"] = st["backend"].upper()
             cases.append({"stream": "locale", "steps": steps})
+        return cases + self.generate_round2(tier, rng, lmodes)
+
+    def generate_round2(self, tier, rng, lmodes):
+        """Streams added after seeded round 2 (see design.d/C07.md)."""
+        cases = []
+        # the locale stream with the payload texts in changing attributes
+        kinds = [k for k in sorted(TEXTS) if not k.startswith("long")]
+        for target in ("old", "absent"):
+            steps = []
+            for i, mode in enumerate(lmodes):
+                steps.append(self.one(rng, mode, doc={"secs": 1, "props": 2, "nested": False}, pick=0,
+                                      invalid=None, warn=False, fault=None, target=target, name="f.out",
+                                      filter="default", custom_template=None,
+                                      payload=self.payload(rng, kind=kinds[(i * 7 + len(target)) % len(kinds)])))
+            for st in steps:
+                st["backend"] = st["backend"].upper()
+            cases.append({"stream": "locale", "steps": steps})
+        quick = tier == "quick"
+        base = {"doc": {"secs": 1, "props": 1, "nested": False}, "pick": 0, "warn": False, "filter": "default",
+                "name": "f.out", "invalid": None, "fault": None, "custom_template": None}
+        all_modes = modes()
+        # one mode per serialiser code path; the full list in the thorough tier
+        core = [m for m in all_modes if (m[0] == "fileio" and m[2] in (None, "turtle", "nt", "json-ld", "n3",
+                                                                       "pretty-xml", "trig"))
+                or (m[0] == "odmlwriter" and m[1] in ("JSON", "YAML"))
+                or m[0] == "xmlwriter" or (m[0] == "rdfwriter" and m[2] in ("turtle", "xml"))]
+        positions = sorted(POSITIONS)
+        # (a) payload grid: every text / object kind x every mode, the attribute and the target state rotate
+        n = 0
+        for kind in sorted(TEXTS) + list(OBJECTS):
+            for mode in (core if quick else all_modes):
+                if kind.startswith("long") and quick and mode[0] != "fileio":
+                    continue
+                for rep in range(1 if quick else 4):
+                    n += 1
+                    pos = positions[(n * 5 + rep) % len(positions)] if rng.random() < 0.7 else \
+                        rng.choice(["author", "value", "value_raw", "sec_definition", "unit"])
+                    cases.append(self.one(rng, mode, **dict(base, target=("old", "absent")[n % 2],
+                                                            payload={"kind": kind, "pos": pos})))
+        # (b) every attribute once with a text only UTF-8 with surrogate escapes could hold and once with an
+        #     object, through the text serialisers
+        for pos in positions:
+            for mode in [("fileio", "JSON", None), ("odmlwriter", "YAML", None), ("fileio", "XML", None),
+                         ("odmlwriter", "RDF", "turtle")]:
+                for kind in ("lone_lo", "obj", "astral"):
+                    cases.append(self.one(rng, mode, **dict(base, target=rng.choice(["old", "absent"]),
+                                                            payload={"kind": kind, "pos": pos})))
+        # (c) rich documents (links, unnamed objects, cardinalities, every value type) through every mode
+        for mode in all_modes:
+            for rich in ("plain", "card"):
+                doc = {"secs": 1, "props": 2, "nested": True, "rich": rich}
+                cases.append(self.one(rng, mode, **dict(base, doc=doc, target="old")))
+                if mode[0] in ("fileio", "odmlwriter"):
+                    cases.append(self.one(rng, mode, **dict(base, doc=doc, target="absent",
+                                                            invalid=rng.choice(INVALID_KINDS), pick=rng.randrange(6))))
+        # (d) writer options, odd backend / rdf_format arguments, path shapes, link targets, warning filters
+        xml_modes = [m for m in all_modes if m[1] == "XML"]
+        for mode in xml_modes:
+            for ls in XML_OPTS["local_style"]:
+                for ct in XML_OPTS["custom_template"]:
+                    if quick and rng.random() < 0.5:
+                        continue
+                    opts = dict((k, v) for k, v in (("local_style", ls), ("custom_template", ct)) if v != "<absent>")
+                    cases.append(self.one(rng, mode, **dict(base, target=rng.choice(["old", "absent"]), opts=opts)))
+        for entry in ("fileio", "odmlwriter"):
+            for backend in ODD_BACKENDS:
+                for target in ("old", "absent"):
+                    cases.append(self.one(rng, (entry, backend, None), **dict(base, target=target)))
+            for fobj in RDF_FORMAT_OBJECTS:
+                cases.append(self.one(rng, (entry, "RDF", None), **dict(base, target="old", rdf_format_obj=fobj)))
+        for fobj in RDF_FORMAT_OBJECTS:
+            for target in ("old", "absent"):
+                cases.append(self.one(rng, ("rdfwriter", "RDF", None), **dict(base, target=target,
+                                                                               rdf_format_obj=fobj)))
+        for mode in all_modes:
+            if mode[1] == "RDF" and mode[2] == "turtle":
+                for fmt in RDF_FORMATS2:
+                    for target in ("old", "absent"):
+                        cases.append(self.one(rng, (mode[0], "RDF", fmt), **dict(base, target=target)))
+        some = [m for m in all_modes if m[2] in (None, "turtle", "bogus")]
+        for mode in some:
+            for name in NAMES2:
+                cases.append(self.one(rng, mode, **dict(base, name=name, target=rng.choice(TARGETS))))
+            for kind in ("pathlib", "bytes"):
+                for target in ("old", "absent"):
+                    cases.append(self.one(rng, mode, **dict(base, path_kind=kind, target=target,
+                                                            name=rng.choice(["f.out", "f"]))))
+            for target in LINK_TARGETS:
+                for variant in ({}, {"fault": "validation_crash"}, {"invalid": "notype"},
+                                {"payload": {"kind": "gen", "pos": "author"}},
+                                {"payload": {"kind": "lone_hi", "pos": "value"}}):
+                    cases.append(self.one(rng, mode, **dict(base, target=target, name=rng.choice(["f.out", "f"]),
+                                                            **variant)))
+            if mode[0] in ("fileio", "odmlwriter"):
+                for warn in (False, True):
+                    cases.append(self.one(rng, mode, **dict(base, target="old", warn=warn, filter="ignore")))
+                    cases.append(self.one(rng, mode, **dict(base, target="old", warn=warn, filter="error_all",
+                                                            invalid=rng.choice([None, "notype", "dupid"]))))
+        # earlier data longer than the new document: every mode, a good and a failing save
+        for mode in all_modes:
+            cases.append(self.one(rng, mode, **dict(base, target="old_long")))
+            cases.append(self.one(rng, mode, **dict(base, target="old_long",
+                                                    payload={"kind": rng.choice(["gen", "lone_hi", "obj", "nul"]),
+                                                             "pos": rng.choice(["author", "value_raw"])})))
+        # (e) random draws over the product of all of the above
+        for _ in range(300 if quick else 14000):
+            cases.append(self.wide_one(rng))
+        # (f) one document object and one writer object used for several saves, with edits in between:
+        #     a refused / failed save followed by a good one and the other way round
+        reusable = [m for m in all_modes if m[2] in (None, "turtle", "nt", "xml", "json-ld", "bogus", "trix")]
+        for i in range(60 if quick else 1500):
+            mode = reusable[i % len(reusable)]
+            doc = {"secs": rng.choice([1, 2]), "props": rng.choice([1, 2]), "nested": rng.random() < 0.4}
+            if rng.random() < 0.2:
+                doc["rich"] = rng.choice(["plain", "card"])
+            steps = []
+            for k in range(rng.randrange(2, 5)):
+                st = self.one(rng, mode, doc=doc, name=rng.choice(["f.out", "g.out"]), custom_template=None,
+                              target=rng.choice(["keep", "keep", "keep", "missing_dir"]))
+                st["backend"] = mode[1]
+                style = (i + k) % 3
+                if style == 0:
+                    st["invalid"], st["fault"] = None, None            # a good save
+                elif style == 1 and rng.random() < 0.6:
+                    st["fault"], st["payload"] = None, self.payload(rng)
+                steps.append(self.settle(st))
+            cases.append({"stream": "reuse", "steps": steps})
         return cases
 
     # -- implementation ------------------------------------------------------
@@ -353,11 +727,41 @@ class C07(fw.Check):
             if case["stream"] == "history":
                 io.open(os.path.join(base, "other.txt"), "w").write(u"SENTINEL")
                 return {"steps": [self.run_step(base, st) for st in case["steps"]]}
+            if case["stream"] == "reuse":
+                with io.open(os.path.join(base, "other.txt"), "w") as fh:
+                    fh.write(u"SENTINEL")
+                ctx = {}
+                return {"steps": [self.run_step(base, st, ctx=ctx) for st in case["steps"]]}
             return self.run_step(base, case, fresh=True)
         finally:
             shutil.rmtree(base, ignore_errors=True)
 
-    def run_step(self, base, case, fresh=False):
+    @staticmethod
+    def decode_backend(backend):
+        return {"<none>": None, "<int>": 5, "<bytes>": b"JSON"}.get(backend, backend)
+
+    @staticmethod
+    def save_kwargs(case):
+        """The keyword arguments of the save (rdf_format, XML style options, unknown ones)."""
+        kwargs = {}
+        if case.get("rdf_format") is not None:
+            kwargs["rdf_format"] = case["rdf_format"]
+        if case.get("rdf_format_obj"):
+            kwargs["rdf_format"] = {"none": None, "int": 5, "bytes": b"turtle", "list": ["turtle"],
+                                    "tuple": ("turtle",), "true": True}[case["rdf_format_obj"]]
+        for key, val in sorted((case.get("opts") or {}).items()):
+            if key == "custom_template":
+                val = C07.template(val)
+            kwargs[key] = val
+        return kwargs
+
+    @staticmethod
+    def template(tag):
+        return {"tuple": ("a", "b"), "tuple1": ("a",), "str": "<xsl:template match=\"odML\"/>", "bytes": b"<x/>",
+                "pct": "100%s %d %(x)s %", "empty": "", "wide": u"<!-- \u00e9\u20ac\U0001F600 -->",
+                None: None}[tag]
+
+    def run_step(self, base, case, fresh=False, ctx=None):
         import odml
         from odml.tools.odmlparser import ODMLWriter
         from odml.validation import Validation
@@ -371,9 +775,10 @@ class C07(fw.Check):
             os.makedirs(os.path.join(root, os.path.dirname(name)))
         path = os.path.join(root, name)
         target = case["target"]
-        if target == "old":
+        links = []
+        if target in ("old", "old_long"):
             with io.open(path, "w") as fh:
-                fh.write(u"OLD")
+                fh.write(u"OLD" if target == "old" else LONG_OLD)
         elif target == "missing_dir":
             path = os.path.join(root, "nodir", name)
         elif target == "is_dir":
@@ -381,19 +786,57 @@ class C07(fw.Check):
             for cand in self.candidates(path, case):
                 if not os.path.exists(cand):
                     os.makedirs(cand)
-        doc, secs = build_doc(case["doc"])
-        skipped = inject(doc, secs, case)
-        entry, backend, fmt = case["entry"], case["backend"], case["rdf_format"]
-        kwargs = {}
-        if fmt is not None:
-            kwargs["rdf_format"] = fmt
-        obs = {"skipped": skipped, "path": path}
+        elif target in LINK_TARGETS:
+            # every path the entry point could open is a symbolic link to a file of its own
+            real = os.path.join(root, "real")
+            if not os.path.isdir(real):
+                os.makedirs(real)
+            for i, cand in enumerate(self.candidates(path, case)):
+                dest = os.path.join(real, "data%d" % i)
+                if target == "link_old":
+                    with io.open(dest, "w") as fh:
+                        fh.write(u"OLD")
+                if not os.path.lexists(cand):
+                    os.symlink(dest, cand)
+                links.append(os.path.relpath(dest, root))
+        if ctx is not None and "doc" in ctx:
+            doc, secs = ctx["doc"], ctx["secs"]
+        else:
+            doc, secs = build_doc(case["doc"])
+            if ctx is not None:
+                ctx["doc"], ctx["secs"] = doc, secs
+        undo = []
+        skipped = inject(doc, secs, case, undo)
+        try:
+            return self.save_and_observe(case, root, path, doc, skipped, links, fresh, ctx)
+        finally:
+            if ctx is not None:
+                for fn in reversed(undo):
+                    try:
+                        fn()
+                    except Exception:
+                        pass
+
+    def save_and_observe(self, case, root, path, doc, skipped, links, fresh, ctx):
+        import odml
+        from odml.tools.odmlparser import ODMLWriter
+        from odml.validation import Validation
+        entry, fmt = case["entry"], case["rdf_format"]
+        backend = self.decode_backend(case["backend"])
+        kwargs = self.save_kwargs(case)
+        if "rdf_format" in kwargs:
+            fmt = kwargs["rdf_format"]
+        path_arg = path
+        if case.get("path_kind") == "pathlib":
+            import pathlib
+            path_arg = pathlib.Path(path)
+        elif case.get("path_kind") == "bytes":
+            path_arg = os.fsencode(path)
+        obs = {"skipped": skipped, "path": path, "links": links}
+        # the writer objects of a 'reuse' case live as long as the case
+        reused = ctx if ctx is not None else {}
         with warning_filter(case["filter"]):
-            # what the validation says, and whether rendering works - through the public API
-            try:
-                obs["validate"] = {"ok": [e.rank for e in Validation(doc).errors]}
-            except Exception as exc:
-                obs["validate"] = {"raise": fw.exc_name(exc)}
+            # whether rendering works and what the validation says - through the public API
             try:
                 from odml.tools.parser_utils import RDF_CONVERSION_FORMATS as known_formats
             except ImportError:
@@ -401,30 +844,54 @@ class C07(fw.Check):
             if entry == "xmlwriter":
                 from odml.tools.xmlparser import XMLWriter
                 obs["render"] = result_of(lambda: str(XMLWriter(doc)))
+                if ctx is not None and "writer" not in reused:
+                    reused["writer"] = XMLWriter(doc)
             elif entry == "rdfwriter":
                 from odml.tools.rdf_converter import RDFWriter
-                obs["render"] = result_of(lambda: RDFWriter(doc).get_rdf_str(fmt))
+                if ctx is not None:
+                    # a reused RDFWriter keeps its graph: what it can render is asked of the object itself
+                    if "writer" not in reused:
+                        reused["writer"] = RDFWriter(doc)
+                    obs["render"] = result_of(lambda: reused["writer"].get_rdf_str(fmt))
+                else:
+                    obs["render"] = result_of(lambda: RDFWriter(doc).get_rdf_str(fmt))
             else:
                 try:
                     writer = ODMLWriter(backend)
                     obs["render"] = result_of(lambda: writer.to_string(doc, **kwargs))
-                except NotImplementedError:
+                except Exception:         # NotImplementedError; AttributeError / TypeError for a non-text name
                     obs["render"] = {"ok": "NEW"}
-            obs["format_known"] = None if known_formats is None else \
-                ((fmt if fmt is not None else "xml") in known_formats)
+                if ctx is not None and entry == "odmlwriter" and "writer" not in reused:
+                    try:
+                        reused["writer"] = ODMLWriter(backend)
+                    except Exception:
+                        pass
+            # what the validation says (asked after the rendering: RDFWriter runs Document.finalize, which
+            # re-resolves links - write_file validates the document in the state this leaves)
+            try:
+                obs["validate"] = {"ok": [e.rank for e in Validation(doc).errors]}
+            except Exception as exc:
+                obs["validate"] = {"raise": fw.exc_name(exc)}
+            # RDFWriter gets the format as it is; ODMLWriter takes one that is not a text as "not given" (-> "xml")
+            eff = fmt if (entry == "rdfwriter" or isinstance(fmt, str)) else "xml"
+            try:
+                obs["format_known"] = None if known_formats is None else (eff in known_formats)
+            except TypeError:             # an unhashable rdf_format
+                obs["format_known"] = False
         before = snapshot(root)
         with warning_filter(case["filter"]) as rec:
             try:
                 if entry == "fileio":
-                    odml.save(doc, path, backend, **kwargs)
+                    odml.save(doc, path_arg, backend, **kwargs)
                 elif entry == "odmlwriter":
-                    ODMLWriter(backend).write_file(doc, path, **kwargs)
+                    (reused.get("writer") or ODMLWriter(backend)).write_file(doc, path_arg, **kwargs)
                 elif entry == "xmlwriter":
-                    ct = {"tuple": ("a", "b"), "str": "<xsl:template match=\"odML\"/>", None: None}[
-                        case["custom_template"]]
-                    XMLWriter(doc).write_file(path, custom_template=ct)
+                    xkw = dict((k, v) for k, v in kwargs.items() if k in ("local_style", "custom_template"))
+                    if case.get("custom_template") is not None:
+                        xkw["custom_template"] = self.template(case["custom_template"])
+                    (reused.get("writer") or XMLWriter(doc)).write_file(path_arg, **xkw)
                 else:
-                    RDFWriter(doc).write_file(path, fmt)
+                    (reused.get("writer") or RDFWriter(doc)).write_file(path_arg, fmt)
                 obs["outcome"] = "ok"
             except Exception as exc:
                 obs["outcome"] = fw.exc_name(exc)
@@ -435,14 +902,20 @@ class C07(fw.Check):
         changed = sorted(k for k in set(before) | set(after) if before.get(k, "<absent>") != after.get(k, "<absent>"))
         obs["changed"] = changed
         obs["loads"] = None
+        payload = case.get("payload")
+        plain_payload = payload is None or "payload" in skipped or (
+            payload["kind"] in SAFE_TEXTS and payload["pos"] not in NO_LOADBACK_POS)
         if obs["outcome"] == "ok" and len(changed) == 1 and case.get("fault") is None \
-                and case.get("invalid") is None and case.get("custom_template") is None:
-            obs["loads"] = self.loads_back(os.path.join(root, changed[0]), entry, backend, fmt, doc)
+                and case.get("invalid") is None and case.get("custom_template") is None and plain_payload \
+                and not (case.get("opts") or {}).get("custom_template") and isinstance(backend, str) \
+                and (isinstance(fmt, str) or fmt is None) and ctx is None:
+            obs["loads"] = self.loads_back(os.path.join(root, changed[0]), entry, backend, fmt, doc,
+                                           shape_only=bool(case["doc"].get("rich")))
         obs["root"] = root
         if not fresh:
             # histories: what is there now is the "earlier bytes" of the next step
             for rel, text in after.items():
-                if text is not None and text not in KNOWN_CONTENT:
+                if text is not None and text not in KNOWN_CONTENT and not rel.endswith("@"):
                     with io.open(os.path.join(root, rel), "w") as fh:
                         fh.write(u"OLD")
         return obs
@@ -452,7 +925,7 @@ class C07(fw.Check):
         out = [path]
         if case["entry"] == "fileio":
             out.append(path + "." + case["backend"])
-        if case["entry"] == "rdfwriter":
+        if case["entry"] == "rdfwriter" and not case.get("rdf_format_obj"):
             try:
                 from odml.tools.parser_utils import RDF_CONVERSION_FORMATS
                 ext = RDF_CONVERSION_FORMATS.get(case["rdf_format"])
@@ -471,7 +944,7 @@ class C07(fw.Check):
             return fw.exc_name(exc) == "ParserException"
 
     @staticmethod
-    def loads_back(path, entry, backend, fmt, doc):
+    def loads_back(path, entry, backend, fmt, doc, shape_only=False):
         try:
             if backend.upper() == "RDF":
                 pf = RDF_PARSE_FORMAT.get(fmt)
@@ -483,6 +956,10 @@ class C07(fw.Check):
                 return len(graph) > 0
             import odml
             back = odml.load(path, backend.upper(), show_warnings=False)
+            if shape_only:
+                # loading resolves links (the linked Section gains the target's content): same Sections only
+                return [x for x in signature(back) if x.startswith("S:")] == \
+                    [x for x in signature(doc) if x.startswith("S:")]
             return signature(back) == signature(doc)
         except Exception as exc:
             return "load failed: %s" % fw.exc_name(exc)
@@ -501,7 +978,11 @@ class C07(fw.Check):
         serialize = render
         if obs.get("format_known") is False:
             serialize = {"ok": "NEW"}        # the model's own format check has to refuse
-        decorate = {"raise": "TypeError"} if case.get("custom_template") == "tuple" else {"ok": True}
+        # the style-sheet template is formatted with '%': a 2-tuple is refused. ODMLWriter hands only a text on
+        ct = case.get("custom_template")
+        if ct is None and case["entry"] == "xmlwriter":
+            ct = (case.get("opts") or {}).get("custom_template")
+        decorate = {"raise": "TypeError"} if ct == "tuple" else {"ok": True}
         query = sorted(set(os.path.join(root, rel) for rel in list(obs["before"]) + list(obs["after"])
                            if not rel.endswith("/")))
         fmt = case["rdf_format"]
@@ -511,14 +992,23 @@ class C07(fw.Check):
                 "warn_raises": case["filter"] == "error", "query": query}
 
     def model_requests(self, case, obs):
-        if case["stream"] in ("history", "locale"):
+        if case["stream"] in STEP_STREAMS:
             return [self.step_request(st, o) for st, o in zip(case["steps"], obs["steps"])
                     if self.modelled(st, o)]
         return [self.step_request(case, obs)] if self.modelled(case, obs) else []
 
     @staticmethod
     def modelled(case, obs):
-        # non-ASCII in a path or a non-string rdf_format are outside the model's alphabet
+        # outside the model's alphabet (the oracle alone decides these): a path that is not a text, symbolic
+        # links, a backend name that is not a text, an rdf_format object handed to RDFWriter itself
+        if case.get("path_kind", "str") != "str" or case["target"] in LINK_TARGETS:
+            return False
+        if case["filter"] == "error_all":       # any module's warning may raise anywhere
+            return False
+        if case["backend"] in ("<none>", "<int>", "<bytes>"):
+            return False
+        if case.get("rdf_format_obj") and case["entry"] == "rdfwriter":
+            return False
         return not obs.get("skipped")
 
     def compare_step(self, case, obs, ans):
@@ -539,12 +1029,13 @@ class C07(fw.Check):
             got = content_class(obs["after"].get(rel))
             if want != got:
                 out.append("file %s: model %r, implementation %r" % (rel, want, got))
-        if ans["outcome"] == "ok" and impl_ok and ans["warned"] and not obs["warned"]:
+        if ans["outcome"] == "ok" and impl_ok and ans["warned"] and not obs["warned"] \
+                and case["filter"] != "ignore":
             out.append("model says a warning is issued, implementation issued none")
         return out
 
     def compare(self, case, obs, answers):
-        if case["stream"] in ("history", "locale"):
+        if case["stream"] in STEP_STREAMS:
             out = []
             pairs = [(st, o) for st, o in zip(case["steps"], obs["steps"]) if self.modelled(st, o)]
             for i, ((st, o), ans) in enumerate(zip(pairs, answers)):
@@ -561,7 +1052,7 @@ class C07(fw.Check):
         if validates:
             try:
                 from odml.tools.parser_utils import SUPPORTED_PARSERS
-                supported = case["backend"].upper() in SUPPORTED_PARSERS
+                supported = case["backend"].upper() in SUPPORTED_PARSERS and case["backend"][:1] != "<"
             except ImportError:
                 pass
         ranks = obs["validate"].get("ok")
@@ -573,7 +1064,10 @@ class C07(fw.Check):
             if not failed:
                 out.append("invalid document (%s, issues %s) was saved by %s/%s without an exception"
                            % (case.get("invalid"), ranks, entry, case["backend"]))
-            elif not obs.get("is_parser_exception"):
+            elif not obs.get("is_parser_exception") and case.get("path_kind", "str") == "str" \
+                    and case["filter"] != "error_all":
+                # (odml.save looks at a path that is not a text before it validates; with every warning an
+                #  error anything may raise first: weaker reading, the document must just not be written)
                 out.append("invalid document (%s): save raised %s, not ParserException"
                            % (case.get("invalid"), obs["outcome"]))
         # 2. whenever a save raises, no file is created and existing files keep their content
@@ -585,8 +1079,18 @@ class C07(fw.Check):
         # 3. a successful save touches exactly one path, derived from the given one
         if not failed:
             rel = os.path.relpath(obs["path"], obs["root"])
-            if len(obs["changed"]) != 1:
+            changed_paths = sorted(set(k[:-1] if k.endswith("@") else k for k in obs["changed"]))
+            if len(changed_paths) != 1:
                 out.append("successful save changed %d paths: %s" % (len(obs["changed"]), obs["changed"]))
+            elif len(obs["changed"]) != 1:
+                # a symbolic link at the target path was replaced by a regular file: one path, and the
+                # property does not say that links are followed (weaker reading)
+                if not obs["after"].get(changed_paths[0]):
+                    out.append("successful save left %s empty" % changed_paths[0])
+            elif obs.get("links") and obs["changed"][0] in obs["links"]:
+                # the target path is a symbolic link: the file it points to received the text
+                if not obs["after"].get(obs["changed"][0]):
+                    out.append("successful save left %s empty" % obs["changed"][0])
             elif not obs["changed"][0].startswith(rel):
                 out.append("successful save wrote %s, asked for %s" % (obs["changed"][0], rel))
             elif not obs["after"].get(obs["changed"][0]):
@@ -596,18 +1100,19 @@ class C07(fw.Check):
         # 4. a document with warnings only (or none) whose text can be rendered is written,
         #    and the warnings are reported
         if validates and supported and ranks is not None and "error" not in ranks and not invalid \
-                and "ok" in obs["render"] and case["target"] in ("absent", "old", "keep") \
-                and case["filter"] == "default":
+                and "ok" in obs["render"] and case["target"] in ("absent", "old", "old_long", "keep") + LINK_TARGETS \
+                and case["filter"] in ("default", "ignore") and case.get("path_kind", "str") == "str":
+            # (a path that is not a text - pathlib.Path, bytes - may be refused: weaker reading)
             if failed:
                 out.append("document without validation errors was not saved: %s" % obs["outcome"])
-            elif ranks and not obs["warned"]:
+            elif ranks and not obs["warned"] and case["filter"] == "default":
                 out.append("document saved with %d validation warnings but no warning was reported" % len(ranks))
         return out
 
     def oracle(self, case, obs):
         if "harness_exception" in obs:
             return []
-        if case["stream"] in ("history", "locale"):
+        if case["stream"] in STEP_STREAMS:
             out = []
             for i, (st, o) in enumerate(zip(case["steps"], obs["steps"])):
                 out += ["step %d (%s %s %s): %s" % (i, st["entry"], st["backend"], st["rdf_format"], f)
@@ -618,9 +1123,9 @@ class C07(fw.Check):
     def tag(self, case, obs):
         if case["stream"] == "locale":
             return ("locale:%s" % obs.get("encoding"), True)
-        if case["stream"] == "history":
+        if case["stream"] in ("history", "reuse"):
             steps = obs.get("steps", [])
-            return ("history:%d" % len(steps), any(o.get("outcome") != "ok" for o in steps))
+            return ("%s:%d" % (case["stream"], len(steps)), any(o.get("outcome") != "ok" for o in steps))
         oc = obs.get("outcome")
         if oc == "ok":
             cls = "ok+warned" if obs.get("warned") else "ok"
@@ -632,8 +1137,14 @@ class C07(fw.Check):
             cls = "render-raised"
         else:
             cls = "raised-other"
-        nt = oc != "ok" or case["target"] == "old" or bool(obs.get("warned"))
-        return ("%s:%s" % (case["entry"], cls), nt)
+        nt = oc != "ok" or case["target"] in ("old", "old_long", "link_old") or bool(obs.get("warned"))
+        extra = ""
+        if case.get("payload"):
+            extra = ":payload-text" if case["payload"]["kind"] in TEXTS else ":payload-object"
+        elif case["target"] in LINK_TARGETS or case.get("path_kind") or case.get("opts") \
+                or case.get("rdf_format_obj") or case["doc"].get("rich"):
+            extra = ":round2"
+        return ("%s:%s%s" % (case["entry"], cls, extra), nt)
 
 
 if __name__ == "__main__":
